@@ -86,7 +86,13 @@ func checkUDPMetrics(w *uWorld, info *kit.Info) *kit.Finding {
 			return kit.Violation("udpmetrics:remove-count", "association of client %s reported removed %d times, want exactly once", r.Client, n)
 		}
 		if evs[len(evs)-1].Kind != "removed" {
-			return kit.Violation("udpmetrics:event-after-remove", "association of client %s has events after its removal: %+v", r.Client, evs[len(evs)-1])
+			if w.c.TimeoutMs < 60_000 {
+				// with expiries a datagram can meet an association in the window between its removal report and its
+				// removal from the table: the properties do not forbid that, the accounting below cannot judge it
+				info.Inconclusive = "a datagram was reported on an association after its removal report (expiry window)"
+				return nil
+			}
+			return kit.Violation("udpmetrics:event-after-remove", "association of client %s has events after its removal although nothing expired in this history: %+v", r.Client, evs[len(evs)-1])
 		}
 		var fc, ft []kit.UDPEvent
 		for _, e := range evs {
